@@ -88,7 +88,7 @@ def render_any(prog):
                         out.append(pad + "} else {"); rec(st["else"], indent + 1)
                     out.append(pad + "}")
                 elif k == "import":
-                    out.append(pad + ".import *" + (" as " + st["as"] if st["hasAs"] else "") + ' from "%s"' % st["file"])
+                    out.extend(G.render([st], indent).rstrip("\n").split("\n"))
             else:
                 lines = G.render([st], indent).rstrip("\n").split("\n")
                 st["line"] = len(out) + 1
